@@ -65,7 +65,6 @@ Lemma frame_pm_restart now m r' st h inst :
   m_round m <> r' -> same_at r' (h_st h) st -> res_same r' st (pm_restart now m h inst).
 Proof.
   intros Hne Hs. unfold pm_restart. destruct (do_live inst ev_sgn_restart _); cbn; auto.
-  apply frame_save_fsm; assumption.
 Qed.
 
 Lemma frame_pm_prop m req r' st h i4 op :
